@@ -82,7 +82,7 @@ impl Servers {
         let mut worst = Duration::ZERO;
         for _ in 0..3 {
             let t = Instant::now();
-            let running = start(&this, Xport::Tls, ClientPlan { requests: 0, followup: false, idle_before: Duration::ZERO, collect_after_all_sent: false, big_request: None, collect_delay: Duration::ZERO });
+            let running = start(&this, Xport::Tls, ClientPlan { requests: 0, followup: false, idle_before: Duration::ZERO, collect_after_all_sent: false, big_request: None, collect_delay: Duration::ZERO, big_followup: None });
             if let Some(mut peer) = running.peer {
                 _ = peer.send_chunk(server_hello().as_bytes());
                 _ = wait_until(Duration::from_secs(10), || running.log.lock().unwrap().established.is_some());
@@ -112,6 +112,8 @@ pub struct ClientPlan {
     pub big_request: Option<usize>,
     /// with `collect_after_all_sent`: wait this long between the last send and the first collect
     pub collect_delay: Duration,
+    /// the follow-up request carries a subtree filter of this many bytes
+    pub big_followup: Option<usize>,
 }
 
 async fn drive<T>(connect: impl std::future::Future<Output = Result<Session<T>, netconf::Error>> + Send + 'static, plan: ClientPlan, log: Arc<Mutex<ClientLog>>)
@@ -203,7 +205,8 @@ where
         }
     }
     if plan.followup {
-        let r = match session.rpc::<Get, _>(|b| b.finish()).await {
+        let filter = plan.big_followup.map(|n| netconf::message::rpc::operation::Filter::Subtree(format!("<configuration><a>{}</a></configuration>", "x".repeat(n))));
+        let r = match session.rpc::<Get, _>(|b| b.filter(filter).finish()).await {
             Ok(fut) => fut.await.map(|o| o.to_string()).map_err(|e| format!("{e:?}")),
             Err(e) => Err(format!("send failed: {e:?}")),
         };
@@ -348,7 +351,7 @@ const PROMPT: Duration = Duration::from_millis(1500);
 /// One segmentation case: hello delivered in chunks, then the pipelined replies in chunks.
 pub fn run_seg(servers: &Servers, case: &SegCase) -> SegOutcome {
     let mut problems = Vec::new();
-    let running = start(servers, case.xport, ClientPlan { requests: case.replies, followup: false, idle_before: Duration::ZERO, collect_after_all_sent: false, big_request: None, collect_delay: Duration::ZERO });
+    let running = start(servers, case.xport, ClientPlan { requests: case.replies, followup: false, idle_before: Duration::ZERO, collect_after_all_sent: false, big_request: None, collect_delay: Duration::ZERO, big_followup: None });
     let Some(mut peer) = running.peer else {
         return SegOutcome { problems: vec![("machinery:no-peer".into(), "the client never reached the fake peer".into())], reads_verified: false, observed_reads: vec![] };
     };
@@ -442,7 +445,7 @@ pub fn run_seg(servers: &Servers, case: &SegCase) -> SegOutcome {
 /// Every request must reach the peer and every caller must get its own reply, without further traffic.
 pub fn run_deep(servers: &Servers, xport: Xport, n: usize) -> Vec<(String, String)> {
     let mut problems = Vec::new();
-    let running = start(servers, xport, ClientPlan { requests: n, followup: true, idle_before: Duration::ZERO, collect_after_all_sent: true, big_request: None, collect_delay: Duration::ZERO });
+    let running = start(servers, xport, ClientPlan { requests: n, followup: true, idle_before: Duration::ZERO, collect_after_all_sent: true, big_request: None, collect_delay: Duration::ZERO, big_followup: None });
     let Some(mut peer) = running.peer else {
         return vec![("machinery:no-peer".into(), "the client never reached the fake peer".into())];
     };
@@ -732,7 +735,7 @@ pub struct CloseCase {
 
 pub fn run_close(servers: &Servers, case: &CloseCase) -> Vec<(String, String)> {
     let mut problems = Vec::new();
-    let plan = ClientPlan { requests: case.requests, followup: true, idle_before: if case.idle { Duration::from_millis(150) } else { Duration::ZERO }, collect_after_all_sent: case.sequential, big_request: None, collect_delay: Duration::ZERO };
+    let plan = ClientPlan { requests: case.requests, followup: true, idle_before: if case.idle { Duration::from_millis(150) } else { Duration::ZERO }, collect_after_all_sent: case.sequential, big_request: None, collect_delay: Duration::ZERO, big_followup: None };
     let zero_before = peers::ZERO_READS.load(std::sync::atomic::Ordering::SeqCst);
     let cpu_before = cpu_time();
     let t0 = Instant::now();
@@ -850,13 +853,55 @@ pub fn run_close(servers: &Servers, case: &CloseCase) -> Vec<(String, String)> {
     problems
 }
 
+/// The peer closes its own sending direction (EOF on the pipe / TLS close_notify), stays around, and stops
+/// reading. The outstanding request and a large follow-up request must both fail in bounded time.
+pub fn run_half_close(servers: &Servers, xport: Xport, followup_bytes: usize) -> Vec<(String, String)> {
+    let mut problems = Vec::new();
+    let plan = ClientPlan { requests: 1, followup: true, idle_before: Duration::ZERO, collect_after_all_sent: false, big_request: None, collect_delay: Duration::ZERO, big_followup: Some(followup_bytes) };
+    let running = start(servers, xport, plan);
+    let Some(mut peer) = running.peer else {
+        return vec![("machinery:no-peer".into(), "the client never reached the fake peer".into())];
+    };
+    let log = running.log;
+    _ = peer.send_chunk(server_hello().as_bytes());
+    _ = peer.read_message(Duration::from_secs(2)); // client hello
+    if peer.read_message(Duration::from_secs(2)).is_none() {
+        problems.push(("machinery:no-request".into(), "the request never arrived".into()));
+    }
+    let cpu_before = cpu_time();
+    let t0 = Instant::now();
+    peer.half_close_and_stop_reading();
+    let watch = servers.prompt + Duration::from_millis(2000);
+    let done = wait_until(watch, || log.lock().unwrap().done);
+    let cpu = cpu_time().saturating_sub(cpu_before);
+    let l = log.lock().unwrap().clone();
+    if !done {
+        let what = if l.results.iter().any(Option::is_none) { "the outstanding request never resolves" } else { "the follow-up request never resolves (its send blocks: nothing remembers that the peer has closed)" };
+        problems.push(("hang".into(), format!("the peer closed its sending direction and stopped reading; {what} within {watch:?}")));
+    } else {
+        if let Some(Some((Ok(v), _))) = l.results.first() {
+            problems.push(("result-from-closed-connection".into(), format!("the outstanding request resolved to Ok({v:?}) although no reply was sent")));
+        }
+        if matches!(l.extra, Some(Ok(_))) {
+            problems.push(("request-succeeds-on-closed-connection".into(), "a request issued after the close succeeded".into()));
+        }
+    }
+    if cpu > Duration::from_millis(600) && cpu.as_secs_f64() > t0.elapsed().as_secs_f64() * 0.6 {
+        problems.push(("busy-loop".into(), format!("{:.0} ms CPU in {:.0} ms after the half-close", cpu.as_secs_f64() * 1e3, t0.elapsed().as_secs_f64() * 1e3)));
+    }
+    panic_problems(&log, &mut problems);
+    peer.close(CloseKind::Abort);
+    running.task.abort();
+    problems
+}
+
 /// SSH only: a request larger than the peer's channel window; the peer hangs up while the rest of it waits.
 pub fn run_window_hangup(servers: &Servers, request_bytes: usize) -> Vec<(String, String)> {
     let mut problems = Vec::new();
     servers.ssh.drain();
     let log: Arc<Mutex<ClientLog>> = Arc::default();
     let (l2, port) = (log.clone(), servers.ssh.port);
-    let plan = ClientPlan { requests: 1, followup: true, idle_before: Duration::ZERO, collect_after_all_sent: false, big_request: Some(request_bytes), collect_delay: Duration::ZERO };
+    let plan = ClientPlan { requests: 1, followup: true, idle_before: Duration::ZERO, collect_after_all_sent: false, big_request: Some(request_bytes), collect_delay: Duration::ZERO, big_followup: None };
     let task = servers.rt.spawn(async move {
         let password: Password = SSH_PASSWORD.parse().unwrap();
         drive(Session::ssh(("127.0.0.1", port), "netconf".to_string(), password), plan, l2).await;
@@ -895,7 +940,7 @@ pub fn run_window_pipelined(servers: &Servers, request_bytes: usize) -> Vec<(Str
     servers.ssh.drain();
     let log: Arc<Mutex<ClientLog>> = Arc::default();
     let (l2, port) = (log.clone(), servers.ssh.port);
-    let plan = ClientPlan { requests: 2, followup: false, idle_before: Duration::ZERO, collect_after_all_sent: false, big_request: Some(request_bytes), collect_delay: Duration::ZERO };
+    let plan = ClientPlan { requests: 2, followup: false, idle_before: Duration::ZERO, collect_after_all_sent: false, big_request: Some(request_bytes), collect_delay: Duration::ZERO, big_followup: None };
     let task = servers.rt.spawn(async move {
         let password: Password = SSH_PASSWORD.parse().unwrap();
         drive(Session::ssh(("127.0.0.1", port), "netconf".to_string(), password), plan, l2).await;
@@ -940,7 +985,7 @@ pub fn run_window_pipelined(servers: &Servers, request_bytes: usize) -> Vec<(Str
 /// already hung up in an orderly way (what a server does after <close-session>).
 pub fn run_reply_then_close(servers: &Servers, xport: Xport, kind: CloseKind, requests: usize) -> Vec<(String, String)> {
     let mut problems = Vec::new();
-    let running = start(servers, xport, ClientPlan { requests, followup: false, idle_before: Duration::ZERO, collect_after_all_sent: true, big_request: None, collect_delay: Duration::from_millis(400) });
+    let running = start(servers, xport, ClientPlan { requests, followup: false, idle_before: Duration::ZERO, collect_after_all_sent: true, big_request: None, collect_delay: Duration::from_millis(400), big_followup: None });
     let Some(mut peer) = running.peer else {
         return vec![("machinery:no-peer".into(), "the client never reached the fake peer".into())];
     };
@@ -1080,6 +1125,24 @@ pub fn run_c07(report: &mut Report) {
             }
         }
     }
+    // the peer closes only its sending direction and stops reading; then a request larger than what the
+    // connection buffers
+    if stuck_runtimes < 10 {
+        for (xport, bytes) in [(Xport::Local, 300_000usize), (Xport::Tls, 16_000_000)] {
+            evaluations += 1;
+            _ = distinct.insert(format!("{xport:?}|half-close"));
+            let problems = run_half_close(&servers, xport, bytes);
+            if !problems.is_empty() {
+                servers.reset_runtime();
+            }
+            for (class, what) in problems {
+                if class.starts_with("machinery") {
+                    panic!("machinery failure in the half-close case: {what}");
+                }
+                report.violation(&format!("C07:{class}:{xport:?}:peer-half-closes-and-stops-reading"), &format!("{xport:?}, follow-up request of {bytes} bytes: {what}"), json!({"transport": format!("{xport:?}"), "followup_request_bytes": bytes}));
+            }
+        }
+    }
     report.set("evaluations", evaluations);
     report.set("distinct_nontrivial", distinct.len() as u64);
     report.set("exhaustive", stuck_runtimes < 10);
@@ -1096,7 +1159,7 @@ pub fn run_framing(report: &mut Report) -> u64 {
     for xport in [Xport::Tls, Xport::Local, Xport::Ssh] {
         for caps in [vec![CAP_BASE_1_0, crate::mem::CAP_BASE_1_1, CAP_JUNOS], vec![crate::mem::CAP_BASE_1_1, CAP_JUNOS], vec![CAP_BASE_1_0]] {
             n += 1;
-            let running = start(&servers, xport, ClientPlan { requests: 1, followup: false, idle_before: Duration::ZERO, collect_after_all_sent: false, big_request: None, collect_delay: Duration::ZERO });
+            let running = start(&servers, xport, ClientPlan { requests: 1, followup: false, idle_before: Duration::ZERO, collect_after_all_sent: false, big_request: None, collect_delay: Duration::ZERO, big_followup: None });
             let Some(mut peer) = running.peer else { panic!("machinery failure: no peer on {xport:?}") };
             _ = peer.send_chunk(hello_msg(&caps, "77").as_bytes());
             let client_hello = peer.read_message(Duration::from_secs(3)).unwrap_or_default();
